@@ -381,6 +381,33 @@ func c07(r *mon.Run) {
 			cx.runBoth(tree, gen.SpellTight(tree), doc)
 			t.Nontrivial(fmt.Sprint("chain:", i))
 		}}
+	// Go-built documents in which containers share storage (one list is a prefix / suffix / re-slice of another, two
+	// members hold the same map): equality is by value - same storage is neither necessary nor sufficient
+	aliasDoc := func() (interface{}, interface{}) {
+		ranked := []interface{}{float64(1), float64(2), float64(3), float64(4)}
+		obj := map[string]interface{}{"k": float64(1), "l": []interface{}{float64(1)}}
+		d := map[string]interface{}{"ranked": ranked, "top": ranked[:2], "tail": ranked[2:], "same": ranked[:4], "none": ranked[:0], "copy": []interface{}{float64(1), float64(2)},
+			"o1": obj, "o2": obj, "o3": map[string]interface{}{"k": float64(1), "l": obj["l"]}, "lists": []interface{}{ranked[:2], ranked[:3], ranked[1:3]}, "empty": []interface{}{}}
+		return d, mon.DeepCopy(d) // the model sees an unaliased copy
+	}
+	anames := []string{"ranked", "top", "tail", "same", "none", "copy", "o1", "o2", "o3", "empty", "lists[0]", "lists[1]", "lists[2]", "ranked[:2]", "o1.l", "o3.l"}
+	aliasw := mon.Workload{Name: "containers-sharing-storage", N: len(anames) * len(anames) * 4,
+		Do: func(i int, t *mon.Tally) {
+			a, b := anames[i/4%len(anames)], anames[i/4/len(anames)]
+			expr := []string{a + " == " + b, a + " != " + b, "contains(lists, " + a + ") == contains(lists, " + b + ")", "[" + a + "] == [" + b + "]"}[i%4]
+			lib, plain := aliasDoc()
+			t.Eval()
+			want := apiSearch(expr, plain)
+			for q, o := range []mon.Observed{apiSearch(expr, lib), apiCompiledSearch(expr, lib)} {
+				if o.Panicked || !sameOutcome(o, want) {
+					r.Violate(&mon.Violation{Workload: "containers-sharing-storage", Index: i, API: []string{"Search", "Compile+Search"}[q], Expr: expr, Doc: plain,
+						DocDesc:  "the document built in Go with top = ranked[:2], tail = ranked[2:], same = ranked[:4], o2 = o1 (same map), lists of re-slices; shown without the sharing: " + ref.Canon(plain),
+						Expected: want.String() + " (the answer on a copy without shared storage)", Observed: o.String(), Class: "equality depends on shared storage"})
+					return
+				}
+			}
+			t.Nontrivial("alias:" + expr)
+		}}
 	// operator trees over representative operands
 	reps := gen.List(gen.LitJSON("null"), gen.LitJSON("0"), gen.LitJSON(`""`), gen.LitJSON("[null]"), gen.Field("a"), gen.Field("b"))
 	var bin []func(a, b *gen.Expr) *gen.Expr
@@ -485,7 +512,7 @@ func c07(r *mon.Run) {
 			cx.runOne(tree, gen.Spell(tree), doc)
 			t.NontrivialDistinct(1)
 		}}
-	ws := []mon.Workload{pairs, unary, ptrs, pipew, lchain, sc, scf, trees, three, rnd, eqw, numw, kindPairsWorkload(r, "C07")}
+	ws := []mon.Workload{pairs, unary, ptrs, pipew, lchain, aliasw, sc, scf, trees, three, rnd, eqw, numw, kindPairsWorkload(r, "C07")}
 	if r.Tier == "thorough" {
 		d2m := gen.Materialize(gen.Union(gen.Map(d1, un...), gen.Product(reps, d1, bin...)))
 		d3 := gen.Product(d2m, d1, bin...)
